@@ -1,5 +1,6 @@
 """C11 — save / load / autoload histories: correspondence of the heap model (QV.Model.Store, theorems
-QV.Props.C11_*) with NeuralStateBase.save/load, the three autoloads and ModelSaver._save, plus the property
+QV.Props.C11_*) with NeuralStateBase.save/load, the three autoloads and ModelSaver (driven through its public callback
+interface), plus the property
 oracles ("path -> snapshot at the last successful save") evaluated directly on the implementation."""
 import copy
 import hashlib
@@ -27,7 +28,9 @@ RULE = ("case = random history (<= 12 ops quick / <= 40 thorough) over up to 3 s
         "construct (3 state types, num_hidden/num_aux None or != num_visible, custom unitary dicts via create_dict(**extra), or a caller-owned "
         "dictionary object shared by several constructors and checked after every op), external "
         "in-place randomisation of all parameters (non-zero biases), real fit, addUnitary, mkMeta (None, {}, flat, nested, tensor-valued, "
-        "reserved keys, non-string key), save, repeated save with the same dict, ModelSaver._save (dict / callable / None, metadata_only), "
+        "reserved keys, non-string key; the key 'unitary_dict' also on states WITHOUT a dictionary, where it is ordinary metadata), save, repeated "
+        "save with the same dict, ModelSaver checkpoints through on_epoch_end (dict / callable / None, metadata_only), location as a path or "
+        "as an open file object (save, load, autoload), "
         "load (compatible and incompatible), autoload (same and other state type), reinitialise; after every op all parameter tokens, "
         "identity classes, unitary dicts, metadata contents, torch.load of every file and the error kind are compared exactly with the "
         "model. non-trivial iff some load/autoload succeeds from a file written after a randomisation/training of its source; "
@@ -120,6 +123,8 @@ def gen_plan(rng, maxlen):
         elif r < 0.66:
             md = rng.choice(sorted(metas)) if metas and rng.random() < 0.8 else None
             op = {"t": "save", "slot": slot, "md": md, "path": path}
+            if rng.random() < 0.3:
+                op["fobj"] = True  # `location` is an open file object
             plan.append(op)
             saved[path] = states[slot]
             if rng.random() < 0.35:
@@ -140,11 +145,15 @@ def gen_plan(rng, maxlen):
             good = [p for p, a in saved.items() if a == states[slot]]
             p = rng.choice(good) if good and rng.random() < 0.7 else (rng.choice(sorted(saved)) if saved and rng.random() < 0.8 else path)
             plan.append({"t": "load", "slot": slot, "path": p})
+            if rng.random() < 0.3:
+                plan[-1]["fobj"] = True
         elif r < 0.97:
             p = rng.choice(sorted(saved)) if saved and rng.random() < 0.85 else path
             k = saved[p][0] if p in saved and rng.random() < 0.7 else rng.choice(["pos", "cplx", "dens"])
             s = rng.randrange(3)
             plan.append({"t": "autoload", "slot": s, "kind": k, "path": p})
+            if rng.random() < 0.3:
+                plan[-1]["fobj"] = True
             if p in saved and k == saved[p][0]:
                 states[s] = saved[p]
         else:
@@ -166,6 +175,14 @@ class Hooks:
         self.prev = None
         self.dirty = {}  # slot -> source modified (write/train) since construction
         self.nontrivial = False
+        self.cross_kind = set()  # id(op) of autoloads as ANOTHER state type than the one that wrote the file
+
+    def canon_err(self, op, e_impl, e_model):
+        """autoload of a file written by another state type is outside the property ("auto-constructing a model from it"): which
+        exception it raises depends on which entry of the file the autoload happens to read first; only raises / does not raise is compared"""
+        if op["t"] == "autoload" and id(op) in self.cross_kind:
+            return (None if e_impl is None else "raises"), (None if e_model is None else "raises")
+        return e_impl, e_model
 
     def theorem(self, op, comp):
         t = op["t"]
@@ -235,6 +252,11 @@ class Hooks:
                        cs, sig="save/model-mutated", theorem="C11_no_side_effect")
             if err is not None:
                 ctx.oracle("a refused save writes nothing", file_hash(path) == pre["hash"], cs, sig="save/wrote-after-refusal", theorem="C11_reserved")
+            elif not os.path.exists(path):
+                what = ("ModelSaver(period, folder, file_name).on_epoch_end(state, epoch) with epoch % period == 0 writes folder/file_name.format(epoch)"
+                        if t == "saverSave" else "a successful save leaves a file at the requested location")
+                ctx.oracle(what, False, cs, detail={"expected_file": os.path.basename(path), "present": sorted(os.listdir(real.tmp))[:8]},
+                           sig=f"{t}/no-file", theorem="C11_roundtrip")
             else:
                 f = torch.load(path, weights_only=False)
                 if monly:
@@ -257,7 +279,7 @@ class Hooks:
                         ctx.count("double_save")
             if self.prev is not None and self.prev["op"] == op and self.prev["err"] is None and not monly:
                 ctx.oracle("second save with the same arguments succeeds", err is None, cs, detail={"err": err}, sig="save/second-save-fails", theorem="C11_idempotent")
-            self.prev = {"op": dict(op), "err": err, "file": torch.load(path, weights_only=False) if err is None else None}
+            self.prev = {"op": dict(op), "err": err, "file": torch.load(path, weights_only=False) if err is None and os.path.exists(path) else None}
         else:
             self.prev = None
         if t == "load":
@@ -283,11 +305,17 @@ class Hooks:
                 else:
                     ctx.oracle("load into an incompatible model fails", err is not None, cs, sig="load/incompatible-accepted")
                     ctx.count("load_incompatible")
+        if op.get("fobj") and t in ("save", "load", "autoload"):
+            ctx.count(f"location_is_open_file:{t}")
+        if t in ("save", "saverSave") and pre.get("md_copy") and "unitary_dict" in pre["md_copy"] and "unitary_dict" not in real.models[op["slot"]].__dict__:
+            ctx.count("metadata_key_unitary_dict_on_state_without_dictionary:" + ("accepted" if err is None else str(err)))
         if t == "autoload":
             ls = self.last_saved.get(op["path"])
             if ls is None:
                 ctx.oracle("autoload of a path never saved raises FileNotFoundError", err == "FileNotFoundError", cs, sig="autoload/no-file")
-            elif not ls.get("metadata_only"):
+            elif ls.get("metadata_only"):
+                self.cross_kind.add(id(op))  # a metadata-only checkpoint is not a saved state
+            else:
                 snap = ls["snap"]
                 same = so.KINDS[op["kind"]].__name__ == snap["kind"]
                 if same:
@@ -296,11 +324,12 @@ class Hooks:
                         now = so.snapshot_state(real.models[op["slot"]])
                         ok = (now["arch"] == snap["arch"] and so.deep_equal(now["nets"], snap["nets"]) and so.deep_equal(now["ud"], snap["ud"]))
                     ctx.oracle("autoload reproduces architecture, parameters and unitary dict of the last save", ok, cs, detail={"err": err},
-                               sig="autoload/roundtrip", theorem="C11_roundtrip")
+                               sig="autoload/file-object" if op.get("fobj") else "autoload/roundtrip", theorem="C11_roundtrip_autoload")
                     ctx.count("autoload_same_kind")
                     if ls["dirty"]:
                         self.nontrivial = True
                 else:
+                    self.cross_kind.add(id(op))
                     ctx.count("autoload_other_kind")
                     if err is None:
                         now = so.snapshot_state(real.models[op["slot"]])
@@ -361,6 +390,28 @@ def fixed_cases():
         c(t="addUnitary", slot=0, name="H"), c(t="save", slot=0, md=None, path=2), c(t="load", slot=1, path=2),
         c(t="construct", slot=2, kind="dens", nv=2, nh=3, na=1, ud={"ref": 0}), c(t="autoload", slot=0, kind="cplx", path=1),
         c(t="load", slot=0, path=0), c(t="reinit", slot=0), c(t="save", slot=0, md=None, path=0)]}
+
+
+    # a metadata key "unitary_dict" on a state that HAS no unitary dictionary is ordinary metadata: saved, saved again, loaded,
+    # auto-loaded as the same state type; also in a metadata-only checkpoint (which is then not a loadable state)
+    yield {"tseed": 105, "plan": [
+        c(t="construct", slot=0, kind="pos", nv=2, nh=3, na=None, ud=None), c(t="write", slot=0, net="rbm_am"),
+        c(t="mkMeta", mdslot=0, items=MD_KINDS["res_ud"]), c(t="save", slot=0, md=0, path=0), c(t="save", slot=0, md=0, path=0),
+        c(t="construct", slot=1, kind="pos", nv=2, nh=3, na=None, ud=None), c(t="load", slot=1, path=0),
+        c(t="autoload", slot=2, kind="pos", path=0),
+        c(t="mkMeta", mdslot=1, items=MD_KINDS["res_ud_falsy"]), c(t="save", slot=0, md=1, path=1, fobj=True), c(t="autoload", slot=2, kind="pos", path=1, fobj=True),
+        c(t="saverSave", slot=0, src="dict", mdslot=0, items=[], metadataOnly=False, path=2),
+        c(t="saverSave", slot=0, src="dict", mdslot=0, items=[], metadataOnly=False, path=2), c(t="load", slot=1, path=2, fobj=True),
+        c(t="saverSave", slot=0, src="dict", mdslot=0, items=[], metadataOnly=True, path=1), c(t="load", slot=1, path=1), c(t="autoload", slot=2, kind="pos", path=1),
+        c(t="mkMeta", mdslot=2, items=MD_KINDS["res_both"]), c(t="save", slot=0, md=2, path=0)]}
+    # `location` as an open file object for every state type: save, save again, load, autoload
+    yield {"tseed": 106, "plan": [
+        c(t="construct", slot=0, kind="cplx", nv=2, nh=1, na=None, ud=["H"]), c(t="write", slot=0, net="rbm_ph"),
+        c(t="mkMeta", mdslot=0, items=MD_KINDS["tensor"]), c(t="save", slot=0, md=0, path=0, fobj=True), c(t="save", slot=0, md=0, path=0, fobj=True),
+        c(t="autoload", slot=1, kind="cplx", path=0, fobj=True), c(t="write", slot=1, net="rbm_am"), c(t="load", slot=1, path=0, fobj=True),
+        c(t="construct", slot=2, kind="dens", nv=2, nh=3, na=1, ud=None), c(t="write", slot=2, net="rbm_am"), c(t="save", slot=2, md=None, path=1, fobj=True),
+        c(t="autoload", slot=0, kind="dens", path=1, fobj=True), c(t="mkMeta", mdslot=1, items=MD_KINDS["res_ud"]), c(t="save", slot=2, md=1, path=1, fobj=True),
+        c(t="autoload", slot=1, kind="dens", path=1), c(t="load", slot=0, path=1, fobj=True)]}
 
 
 def gen_cases(ctx, thorough, ncases=None):
